@@ -6,6 +6,7 @@ C16 driver.  A case is one operation history:
 
   C16 hist  <nslots> <op>;<op>;…      (buffer level, harness h-buffer/c16)
   C16 ahist <nslots> <op>;<op>;…      (array / C-Data-Interface level, harness h-core/c16a)
+  C16 mt <threads> <iters> <len>      (thorough tier search aid, harness h-buffer/c16)
 
 Each op is `name:arg:arg…`.  The answer has one group per step,
 `<outcome>/<pool.used>/<owners dropped in this step>/<slots whose visible content changed>`,
@@ -103,10 +104,24 @@ def handleHist (n ops : String) : String :=
     | none => ans
   | _, _ => "bad-op"
 
+/-- the multi-threaded search aid (`C16 mt <threads> <iters> <len>`): under the assumption that
+`Arc` operations are linearizable every schedule is some sequential history of the same
+clone / failed-`into_mutable` / drop steps; the model is run on one such history (iterations
+capped, the shape repeats) and must end with exactly one drop of the owner. -/
+def handleMt (th it len : Nat) : String :=
+  let body : List Op := [.clone 0 1, .clone 1 2, .intoMutable 2, .drop 2, .drop 1]
+  let ops : List Op := [.allocCustom 0 len 3] ++ (List.replicate (th * min it 20) body).flatten ++ [.drop 0]
+  let s := run (init 3) ops
+  if specOk s then s!"D={showList toString (dropsOf s)}" else "MODEL-SPEC-MISMATCH model=mt spec=specOk fails"
+
 def handle (toks : List String) : String :=
   match toks with
   | ["hist", n, ops] => handleHist n ops
   | ["ahist", n, ops] => handleHist n ops
+  | ["mt", th, it, len] =>
+    match th.toNat?, it.toNat?, len.toNat? with
+    | some th, some it, some len => handleMt th it len
+    | _, _, _ => "bad-op"
   | _ => "bad-op"
 
 end ArrowModel.C16
